@@ -138,7 +138,7 @@ def check_rules(ctx, prefix, nprog_q, nprog_t, thin=1):
 
 
 def run_C01(ctx):
-    return check_rules(ctx, "C01", 50, 1000, thin=2)
+    return check_rules(ctx, "C01", 50, 600, thin=3)
 
 
 def run_C08(ctx):
@@ -209,7 +209,7 @@ def formula_cost_params(ctx, rec, idx, trees, extra_free=0):
         size += V.tree_size(t)
         depth = max(depth, qdepth(t))
     return V.add_params(ctx, rec, idx, [], nvars=len(fv) + extra_free + depth, size=size,
-                        budget=12000000 if ctx.quick() else 150000000), len(fv)
+                        budget=12000000 if ctx.quick() else 40000000), len(fv)
 
 
 def generic_formula_check(ctx, mode, gen_mode, nq, nt, depth_q, depth_t, trees_of, prefix, extra_cases=(), transform=None,
@@ -388,7 +388,7 @@ def simp_cases(ctx, nq, nt):
 
 def run_C07(ctx):
     V.build()
-    cases = simp_cases(ctx, 500, 4000)
+    cases = simp_cases(ctx, 500, 3000)
     recs = V.run_harness(ctx, "simplify", cases)
     # every rewrite rule on its own (a wrong rule can be masked by a later rule of the portfolio)
     for r in V.run_harness(ctx, "rewrites", cases, tag="-single"):
